@@ -144,6 +144,7 @@ init_strategy = st.fixed_dictionaries({
     "L": st.integers(2, 7), "bond": st.integers(1, 4), "d": st.sampled_from([2, 2, 2, 3]),
     "dtype": st.sampled_from(["complex128", "complex128", "float64"]), "seed": st.integers(0, 2**31 - 1),
     "normalize": st.booleans(), "start": st.sampled_from(["none", "calc", "canon"]), "where": st.integers(0, 6),
+    "exponent": st.sampled_from([0.0, 0.0, 0.0, 1.0, -0.5]),
 })
 
 
@@ -159,6 +160,10 @@ def start(init):
                              normalize=init["normalize"])
     if not init["normalize"]:
         psi[0].modify(data=psi[0].data * 1.7)
+    if init.get("exponent"):
+        # a stored exponent is part of the state an MPS denotes (to_dense includes it; 1D compression with
+        # equalize_norms=<float> returns such states)
+        psi.exponent = float(init["exponent"])
     s.psi = psi
     s.info = {}
     if init["start"] == "calc":
